@@ -69,7 +69,7 @@ def confirm_timeout(make_parser, text, lines=300000):
         sys.settrace(None)
 
 
-def isolated_batch(texts, per_input=3.0):
+def isolated_batch(texts, per_input=8.0):
     """parse texts in a child process; returns [(record-outcome or None, raised, timed_out)]"""
     import select
     import subprocess
@@ -223,7 +223,7 @@ LEX = ['1', '23', '.5', '1.5', '7%', '2^3', '"a"', "'b'", '"', "'", 'A1', '$B$2'
        '#N/A', '#', '!', '%', '^', ':', '.', ' ', '~', 'TRUE', '$', '_', 'é', '\n']
 
 
-PV = ['pa', 'pb', 'pc', 'pd', 'pe', 'pf', 'pg', 'ph', 'pi_', 'pj', 'pk', 'pl']   # not cell-shaped
+PV = ['pa', 'pb', 'pc', 'pd', 'pe', 'pf', 'pg', 'ph', 'pi_', 'pj', 'pk', 'pl', 'pm', 'pn']   # not cell-shaped
 
 
 def mk_parser(lib):
@@ -237,7 +237,7 @@ def mk_parser(lib):
 def pool_values(lib):
     from hotxlfp.formulas import error
     return [7, -2.5, '12', 'abc', '', True, None, datetime.datetime(2021, 3, 4, 5, 6, 7), [3, 1, 2], [[1, 2], [3, [4]]],
-            error.NOT_AVAILABLE, 0]
+            error.NOT_AVAILABLE, 0, 2.5, '3.5']
 
 
 def main(tier, replay=None):
@@ -346,10 +346,11 @@ def main(tier, replay=None):
             texts += [q + 'a' * n, 'SUM(1,' + q + 'ab cd ' * (n // 6), q + 'x\\' * (n // 2), '1+' + q + ' ' * n + 'z']
         for _ in range(20 if quick else 200):
             texts.append(q + ''.join(rng.choice('ab \\(),;+1#') for _ in range(rng.randint(30, 120))))
-    for n in (50, 400):
+    for n in (50, 400, 5000):
         texts += ['(' * n + '1' + ')' * n, '(' * n + '1', '-' * n + '1', '1+' * n + '1', '1' * n, 'A' * n + '1',
                   'SUM(' + ','.join(['1'] * n) + ')', '{' + ';'.join(['1'] * n) + '}', 'SUM(' * n + '1' + ')' * n,
                   '"a"&' * n + '"b"', '#' * n, '1' + '%' * n, 'IF(' * n + '1']
+    texts += ['"' + 'a b ' * 3000 + '"', ' ' * 9000, ' ' * 9000 + '1', 'SUM(' + ' ' * 9000 + '1)', '"x"&' * 3000 + '"y"']
     for i, (out, raised, timed) in enumerate(isolated_batch(texts)):
         o = observation('text', texts[i], None, raised, timed)
         if out is not None:
